@@ -129,6 +129,10 @@ pub fn check_case(c: &OptCase, obs: &mut Obs) -> Result<(), String> {
     let helper_blocker = "/cpath/".to_string(); // every grid URL contains /cpath/
     let rules: Vec<String> = if c.ast.exception && c.ast.modifier == Modifier::None { vec![line.clone(), helper_blocker] } else { vec![line.clone()] };
     let engine = build_engine(&rules, false, false, &[]);
+    // the same single-rule list after a serialize -> deserialize round trip (options are stored
+    // in the serialized rule; they must restrict matching exactly as before)
+    let mut engine_rt = adblock::Engine::new(false);
+    engine_rt.deserialize(&engine.serialize_raw().map_err(|e| format!("serialize: {:?}", e))?).map_err(|e| format!("deserialize of own bytes: {:?}", e))?;
     for (raw_type, scheme, third, source_host) in reqs {
         let url = url_for(scheme);
         let src = source_url(*third, source_host);
@@ -168,6 +172,7 @@ pub fn check_case(c: &OptCase, obs: &mut Obs) -> Result<(), String> {
         }
         if want { obs.label("applies"); } else { obs.label("does-not-apply"); }
         // engine level
+        for (engine, how) in [(&engine, "single-rule engine"), (&engine_rt, "single-rule engine after serialize->deserialize")] {
         let b = engine.check_network_request(&req);
         let engine_says = match (&c.ast.modifier, c.ast.exception) {
             (Modifier::None, false) => b.matched,
@@ -198,10 +203,11 @@ pub fn check_case(c: &OptCase, obs: &mut Obs) -> Result<(), String> {
         };
         if engine_says != want {
             return Err(format!(
-                "REPLAY_CASE:{}\nrule {:?}: request (type {:?}, scheme {}, third-party {}, source {:?}) reference says applies={}, single-rule engine says {} ({:?})",
+                "REPLAY_CASE:{}\nrule {:?}: request (type {:?}, scheme {}, third-party {}, source {:?}) reference says applies={}, {} says {} ({:?})",
                 serde_json::to_string(&OptCase { ast: c.ast.clone(), reqs: Some(vec![(raw_type.clone(), scheme.clone(), *third, source_host.clone())]), scheme_form: c.scheme_form.clone() }).unwrap(),
-                line, raw_type, scheme, third, source_host, want, engine_says, Verdict::of(&b)
+                line, raw_type, scheme, third, source_host, want, how, engine_says, Verdict::of(&b)
             ));
+        }
         }
     }
     Ok(())
@@ -516,7 +522,7 @@ fn decode_combos(t: &mut Tape) -> OptCase {
 }
 
 pub fn check(ctx: &mut Ctx) {
-    ctx.rule = "exhaustive: every type-option set of size <= 2 over the 11 resource types with all sign combinations, all aliases, document combinations and a few triples (x 9 party spellings x exception x {none, csp, removeparam} x {plain pattern, ||host^ form} x important) against the full request grid of 26 request-type strings x 6 schemes x {first, third party}; combos: random type sets with one or two (possibly contradictory) party options and scheme-only patterns ('|ws://', '|http://', '|https://') against random grid requests; random: domain=/~domain lists (1-5 entries, duplicates, public-suffix entries) against listed / sub- / parent / look-alike / unrelated / absent sources, including sources up to 13 labels below a listed entry; group: 2-6 rules `/cpath/slotNN$domain=...` that share one token bucket, domain lists of 0-31 entries over a pool of 8-47 domains (1 in 3 with two equal-length lists), optimisation on (3 in 4) or off, probed per rule from domains listed by it or by its neighbours (expected: exactly the probed rule's own list decides). Observed at NetworkFilter::matches and at a single-rule engine (matched / exception / csp / rewritten_url). Non-trivial = the reference says the rule applies to the request.".into();
+    ctx.rule = "exhaustive: every type-option set of size <= 2 over the 11 resource types with all sign combinations, all aliases, document combinations and a few triples (x 9 party spellings x exception x {none, csp, removeparam} x {plain pattern, ||host^ form} x important) against the full request grid of 26 request-type strings x 6 schemes x {first, third party}; combos: random type sets with one or two (possibly contradictory) party options and scheme-only patterns ('|ws://', '|http://', '|https://') against random grid requests; random: domain=/~domain lists (1-5 entries, duplicates, public-suffix entries) against listed / sub- / parent / look-alike / unrelated / absent sources, including sources up to 13 labels below a listed entry; group: 2-6 rules `/cpath/slotNN$domain=...` that share one token bucket, domain lists of 0-31 entries over a pool of 8-47 domains (1 in 3 with two equal-length lists), optimisation on (3 in 4) or off, probed per rule from domains listed by it or by its neighbours (expected: exactly the probed rule's own list decides). Observed at NetworkFilter::matches, at a single-rule engine (matched / exception / csp / rewritten_url) and at the same engine after a serialize->deserialize round trip. Non-trivial = the reference says the rule applies to the request.".into();
     ctx.assumptions = vec![
         "csp_report maps to no resource-type option; websocket schemes force the websocket type; exceptions also apply to documents".into(),
         "option combinations the parser rejects (csp with types, removeparam exception) are skipped and counted".into(),
